@@ -1096,6 +1096,10 @@ class TestResult(unittest.TestResult):
             self.stop()
 
     def stopTest(self, test):
+        # If the test ended without a result event (e.g. KeyboardInterrupt)
+        # or captured again after one (a skip), the streams are still
+        # replaced: never leave a test with the buffers installed.
+        self._restoreStdStreams()
         self.testTearDown()
         # Without clearing, cyclic garbage referenced by the test
         # would be reported in the following test.
